@@ -238,15 +238,24 @@ def judge(items, checker, col=None):
     lines = HEADER.rstrip("\n").split("\n")
     for g in GENERICS:
         lines += g[1]
+        # twin with the same parameters whose return type does not mention the type variables:
+        # whether a call is accepted must not depend on the return annotation
+        lines += [re.sub(r"^def (\w+)\((.*)\) -> .*:$", r"def \1_n(\2) -> int:", g[1][0]), "    return 0"]
+        lines += [re.sub(r"^def (\w+)\((.*)\) -> .*:$", r"def \1_v(\2) -> None:", g[1][0]), "    pass"]
     for c, calls in items:
         if not c.get("generic"):
             lines += c["defs"]
     lines.append("def body():")
     lmap = {}
+    twin_lines = {}
     for ci, (c, calls) in enumerate(items):
         for j, (argtext, pairs) in enumerate(calls):
             lines.append(f"    r{ci}_{j} = {c['callee']}({argtext})")
             lmap[len(lines)] = (ci, j)
+            if c.get("generic"):
+                for suffix in ("_n", "_v"):
+                    lines.append(f"    {c['callee']}{suffix}({argtext})")
+                    twin_lines.setdefault(len(lines) - (1 if suffix == "_n" else 2), []).append((len(lines), suffix))
     src = "\n".join(lines) + "\n"
     res = sut.check_source(src, checker=checker, collect_values=True, keep_module=True)
     try:
@@ -254,7 +263,11 @@ def judge(items, checker, col=None):
             raise res.raised
         mod = res.module
         diag, other = {}, {}
+        twin_diag = {}
+        all_twin = {tl for ts in twin_lines.values() for tl, _ in ts}
         for d in res.diags:
+            if d.lineno in all_twin and d.code in ("incompatible_argument", "incompatible_call"):
+                twin_diag.setdefault(d.lineno, []).append(d.description)
             if d.lineno in lmap:
                 if d.code in ("incompatible_argument", "incompatible_call"):
                     diag.setdefault(d.lineno, []).append(d.description)
@@ -316,6 +329,19 @@ def judge(items, checker, col=None):
                 if col is not None:
                     col.case(nontrivial_id=("generic", call_src), label=[f"form:{form}", "accepted" if not diagnosed else "diagnosed"],
                              sample=call_src)
+            if c.get("generic"):
+                twin_bad = False
+                for tl, suffix in twin_lines.get(line, []):
+                    if (tl in twin_diag) != diagnosed:
+                        fails.append((f"verdict-depends-on-return|{c['generic']}{suffix}",
+                                      f"`{call_src}` is {'diagnosed' if diagnosed else 'accepted'} but the same call of the twin "
+                                      f"`{c['callee']}{suffix}` (same parameters, return type without type variables) is "
+                                      f"{'diagnosed' if tl in twin_diag else 'accepted'}: {(twin_diag.get(tl) or diag.get(line) or [''])[0][:200]}",
+                                      c, argtext, pairs))
+                        twin_bad = True
+                        break
+                if twin_bad:
+                    continue
             if diagnosed:
                 continue
             vals = inferred.get(line) or []
